@@ -122,8 +122,45 @@ type gen struct {
 	st *hx.Stats
 }
 
+// wide: many immediates requested in one synchronous block, some of which request further immediates and
+// reactions (exercises batches longer than any fixed bound and the position of nested requests)
+func (g *gen) wide() program {
+	r := g.r
+	n := 12 + r.Intn(8)
+	var p program
+	var main []act
+	for i := 1; i < n; i++ {
+		main = append(main, act{K: "imm", A: i, H: r.Intn(3)})
+		if r.Chance(15) {
+			main = append(main, act{K: "then", A: 1 + r.Intn(n-1)})
+		}
+	}
+	p.Cbs = append(p.Cbs, main)
+	for k := 1; k < n; k++ {
+		var b []act
+		if r.Chance(35) && k+1 < n {
+			b = append(b, act{K: "imm", A: k + 1 + r.Intn(n-k-1), H: r.Intn(3)})
+		}
+		if r.Chance(25) && k+1 < n {
+			b = append(b, act{K: "then", A: k + 1 + r.Intn(n-k-1)})
+		}
+		if r.Chance(10) {
+			b = append(b, act{K: "throw"})
+		} else {
+			b = append(b, act{K: "log"})
+		}
+		p.Cbs = append(p.Cbs, b)
+	}
+	// nested callbacks must not schedule forever: callbacks only point forward (k+1..n-1), the last ones are leaves
+	g.st.Hit("program:wide")
+	return p
+}
+
 func (g *gen) program() program {
 	r := g.r
+	if r.Chance(15) {
+		return g.wide()
+	}
 	n := 4 + r.Intn(6)
 	timers := r.Chance(60)
 	var p program
